@@ -29,7 +29,7 @@ class Contract:
 
     def __init__(self, name, target, setup, requires=None, ensures=None, raises=None, loops=None, callees=None,
                  canaries=(), dropped=(), decorators=None, generator=None, on_exit=None, note="", max_paths=400,
-                 class_models=None, timeout_ms=None, concretize=None, hints=None):
+                 class_models=None, timeout_ms=None, concretize=None, hints=None, stop_after=None):
         self.name, self.target, self.setup = name, target, setup
         self.requires = requires or (lambda ctx, st: [])
         self.ensures = ensures or (lambda ctx, st, ret: [])
@@ -45,6 +45,7 @@ class Contract:
         self.class_models = class_models or {}
         self.timeout_ms = timeout_ms
         self.concretize = concretize
+        self.stop_after = stop_after    # text of the last statement of the verified prefix (ensures then receives the locals)
         self.hints = hints      # (ctx, st, skolem constants) -> terms to mention (guides hypothesis instantiation; adds no facts)
 
 
@@ -88,6 +89,9 @@ def run_contract(con, timeout_ms=10000, keep_models=True, verbose=False):
         core.CUR = ctx
         ip = Interp(ctx, registry=dict(con.callees))
         ip.class_models.update(con.class_models)
+        if con.stop_after is not None:
+            import ast as _ast
+            ip.stop_after = (lambda stmt, t=con.stop_after: _ast.unparse(stmt).replace(" ", "").startswith(t.replace(" ", "")))
         for k, spec in con.loops.items():
             ip.loop_specs[k] = spec
         outcome = None
@@ -150,7 +154,7 @@ def run_contract(con, timeout_ms=10000, keep_models=True, verbose=False):
                 except Exception as e:
                     res.undecided.append("hints failed: %r" % (e,))
             try:
-                r = solve.solve_obligation(ctx, ob, timeout_ms)
+                r = getattr(ob, "presolved", None) or solve.solve_obligation(ctx, ob, timeout_ms)
             except Exception as e:
                 res.undecided.append("engine error while discharging %s: %r" % (ob.oid, e))
                 res.crashed = True
